@@ -13,7 +13,7 @@ ASSUMPTIONS = ['histories of 3 (quick) / 4 (thorough) steps chosen by symbolic s
                'bad names}, *IDN?, disconnect on 2 connections and updates of 4 parameters with symbolic values',
                'sequential histories here; an activation / deactivation racing with concurrently running updates is explored by harness/C08_races.py']
 REQUIRED_TAGS = ['delivered', 'not-delivered', 'snapshot', 'refused']
-LIMITS = {'quick': {'max_paths': 60000, 'max_s': 150}, 'thorough': {'max_paths': 900000, 'max_s': 1200}}
+LIMITS = {'quick': {'max_paths': 60000, 'max_s': 150}, 'thorough': {'max_paths': 900000, 'max_s': 700}}
 
 SCOPES = [None, 'm', 'mm', 'm:_a', 'mm:_a', 'm:_zz', 'zz', 'm:_h', 'hid']
 GOOD_SCOPES = SCOPES[:5]
